@@ -238,6 +238,20 @@ class Replayer:
             # "sparse" traces: pure / derived calls are as rare as the queries
             p = {k: ((v[0], v[1] * 0.3) if isinstance(v, tuple) else (v if k == "filter" else v * 0.3)) for k, v in p.items()}
         if "filter" in p and rng.random() < p["filter"]:
+            # decorate some nodes / hyperedges first (ordinary logged calls), so that criteria split the items
+            # instead of hitting all or none of them
+            if rng.random() < 0.7:
+                st = self.b.state(self.objs[oid])
+                for _ in range(rng.randint(2, 6)):
+                    f, v = rng.choice(["a", "b"]), rng.choice(["0", "1"])
+                    if st["nodes"] and rng.random() < 0.6:
+                        n = rng.choice(st["nodes"])
+                        if n != -1:
+                            self.call(oid, {"op": "set_attr_node", "n": n, "f": f, "v": v})
+                    elif st["edges"]:
+                        k = rng.choice(st["edges"])["k"]
+                        if -1 not in k["s"]:
+                            self.call(oid, {"op": "set_attr_edge", "k": k, "f": f, "v": v})
             ev = D.filter_call(self, oid)
             if ev is not None:
                 self._log(oid, ev["op"], ev["ok"])
